@@ -29,10 +29,11 @@ import (
 // ---------------------------------------------------------------------------
 
 type zvC28Cfg struct {
-	Layout  string  `json:"layout"`  // same_vrf | same_addr | disjoint
-	V6      bool    `json:"ipv6"`    // family of the prefixes and of the peer addresses
-	Post    [2]bool `json:"post"`    // policy flavour of each neighbour (false = pre-policy)
-	AddPath bool    `json:"addpath"` // sessions negotiated add-path, updates carry path identifiers
+	Layout  string  `json:"layout"`         // same_vrf | same_addr | disjoint
+	V6      bool    `json:"ipv6"`           // family of the prefixes and of the peer addresses
+	Post    [2]bool `json:"post"`           // policy flavour of each neighbour (false = pre-policy)
+	AddPath bool    `json:"addpath"`        // sessions negotiated add-path, updates carry path identifiers
+	Wide    bool    `json:"wide,omitempty"` // thorough tier: both path identifiers for both prefixes
 }
 
 const (
@@ -91,7 +92,10 @@ func zvC28NewWorld(cfg zvC28Cfg) *zvC28World {
 		w.pfxStr[0] = bnet.NewPfx(bnet.IPv4FromOctets(10, 1, 0, 0), 16).Ptr().String()
 		w.pfxStr[1] = bnet.NewPfx(bnet.IPv4FromOctets(10, 1, 1, 0), 24).Ptr().String()
 	}
-	if cfg.AddPath {
+	if cfg.AddPath && cfg.Wide {
+		w.slots = []zvC28Slot{{0, 1}, {0, 2}, {1, 1}, {1, 2}}
+		w.both = [2]int{1, 2}
+	} else if cfg.AddPath {
 		w.slots = []zvC28Slot{{0, 1}, {0, 2}, {1, 1}}
 		w.both = [2]int{1, 2}
 	} else {
@@ -472,6 +476,9 @@ func zvC28Step(r *vh.Run, w *zvC28World, hist []zvC28Ev) (canon string, enabled 
 		for _, rd := range zvC28RDs {
 			for _, fam := range []int{4, 6} {
 				got, want := x.dump(rd, fam), m.want(w, rd, fam)
+				if len(got) > 0 {
+					r.Outcome(fmt.Sprintf("%s/%d/%v=%v", w.cfg.Layout, fam, w.cfg.Post, got))
+				}
 				missing, extra := zvC28Diff(got, want)
 				if len(want) > 0 {
 					r.Count("table_nonempty_checked", 1)
@@ -493,7 +500,7 @@ func zvC28Step(r *vh.Run, w *zvC28World, hist []zvC28Ev) (canon string, enabled 
 					clause = "stale_after_" + last
 				}
 				viol(vh.Sig("clause", clause, "kind", kind, "last", last), "after [%s] (%s) table %s/ipv%d holds %v, the reference says %v (missing %v, extra %v)",
-					c.Text, phase, vrfName(rd), fam, got, want, missing, extra)
+					c.Text, phase, zvC28VrfName(rd), fam, got, want, missing, extra)
 			}
 		}
 		// observers: nothing of a peer that is down (or of an ended session) may remain in a live observer's view
@@ -523,7 +530,7 @@ func zvC28Step(r *vh.Run, w *zvC28World, hist []zvC28Ev) (canon string, enabled 
 			}
 			if len(stale) > 0 {
 				viol(vh.Sig("clause", "observer", "last", last, "observer", map[bool]string{true: "all_paths", false: "best_only"}[o.all]),
-					"after [%s] (%s) the observer registered (at event %d) on table %s/ipv%d was neither disposed nor told to remove %v", c.Text, phase, o.born, vrfName(o.rd), o.fam, stale)
+					"after [%s] (%s) the observer registered (at event %d) on table %s/ipv%d was neither disposed nor told to remove %v", c.Text, phase, o.born, zvC28VrfName(o.rd), o.fam, stale)
 			}
 		}
 	}
@@ -592,6 +599,27 @@ func zvC28Step(r *vh.Run, w *zvC28World, hist []zvC28Ev) (canon string, enabled 
 			}
 		}
 		next := 0 // next step to account for
+		apply := func(idx int) {
+			e := hist[idx]
+			if idx == len(hist)-1 && (e.K == "down" || e.K == "term" || e.K == "loss") {
+				routes := 0
+				for n := 0; n < 2; n++ {
+					if e.K != "down" || n == e.N {
+						routes += len(m.have[n])
+					}
+				}
+				if routes > 0 {
+					r.Count("teardown_with_routes_checked", 1)
+				}
+				for _, o := range x.obs {
+					if !o.o.disposed && len(o.o.have) > 0 {
+						r.Count("teardown_with_observer_view_checked", 1)
+						break
+					}
+				}
+			}
+			m.apply(w, e)
+		}
 		conn.onBound = func(k int) bool {
 			end := conn.bounds[k]
 			for next < len(steps) && steps[next].end <= end {
@@ -599,7 +627,7 @@ func zvC28Step(r *vh.Run, w *zvC28World, hist []zvC28Ev) (canon string, enabled 
 				if e.K == "loss" {
 					break // the loss itself is the EOF that follows
 				}
-				m.apply(w, e)
+				apply(steps[next].ev)
 				if e.K == "obs" {
 					if x.register(steps[next].ev) > 0 {
 						r.Count("observers_registered", 1)
@@ -624,7 +652,7 @@ func zvC28Step(r *vh.Run, w *zvC28World, hist []zvC28Ev) (canon string, enabled 
 			return "panic:" + p.Site, nil, false
 		}
 		if next < len(steps) && hist[steps[next].ev].K == "loss" {
-			m.apply(w, hist[steps[next].ev])
+			apply(steps[next].ev)
 			next++
 		}
 		if next != len(steps) {
@@ -648,19 +676,23 @@ func zvC28Step(r *vh.Run, w *zvC28World, hist []zvC28Ev) (canon string, enabled 
 	return canon, m.enabled(w), true
 }
 
-func vrfName(rd uint64) string { return fmt.Sprintf("%d:%d", rd>>32, rd&0xffffffff) }
+func zvC28VrfName(rd uint64) string { return fmt.Sprintf("%d:%d", rd>>32, rd&0xffffffff) }
 
 // ---------------------------------------------------------------------------
 // driver
 // ---------------------------------------------------------------------------
 
-func zvC28Configs() []zvC28Cfg {
+func zvC28Configs(thorough bool) []zvC28Cfg {
 	var out []zvC28Cfg
+	flavours := [][2]bool{{false, false}, {true, true}, {false, true}}
+	if thorough {
+		flavours = append(flavours, [2]bool{true, false})
+	}
 	for _, layout := range []string{"same_vrf", "same_addr", "disjoint"} {
 		for _, v6 := range []bool{false, true} {
 			for _, ap := range []bool{false, true} {
-				for _, post := range [][2]bool{{false, false}, {true, true}, {false, true}} {
-					out = append(out, zvC28Cfg{Layout: layout, V6: v6, Post: post, AddPath: ap})
+				for _, post := range flavours {
+					out = append(out, zvC28Cfg{Layout: layout, V6: v6, Post: post, AddPath: ap, Wide: thorough && ap})
 				}
 			}
 		}
@@ -668,7 +700,8 @@ func zvC28Configs() []zvC28Cfg {
 	return out
 }
 
-var zvC28Required = []string{"table_nonempty_checked", "table_multi_path_checked", "observers_registered", "observer_view_nonempty_checked", "observer_disposed_seen"}
+var zvC28Required = []string{"table_nonempty_checked", "table_multi_path_checked", "observers_registered", "observer_view_nonempty_checked", "observer_disposed_seen",
+	"teardown_with_routes_checked", "teardown_with_observer_view_checked"}
 
 func TestVerifC28(t *testing.T) {
 	r := vh.Start(t, "C28")
@@ -690,7 +723,7 @@ func TestVerifC28(t *testing.T) {
 		}
 		return
 	}
-	cfgs := zvC28Configs()
+	cfgs := zvC28Configs(r.Thorough())
 	r.Extra("configurations_total", len(cfgs))
 	depth := 0
 	if !r.Thorough() {
